@@ -41,10 +41,14 @@ func main() {
 	opt := drive.Options{Property: prop, Tier: *tier, Seed: seed, Workers: *workers, RepoDir: *repo, VerifDir: *verif,
 		Solver: *solver, OnlyCase: *only, MaxJobs: *maxJobs, NoReplay: *noReplay, TimeoutMs: *timeout, Verbose: *verbose}
 	if opt.TimeoutMs == 0 {
-		opt.TimeoutMs = 10000
+		opt.TimeoutMs = 4000
 		if *tier == "thorough" {
-			opt.TimeoutMs = 120000
+			opt.TimeoutMs = 20000
 		}
+	}
+	opt.OneShotMs = 30000
+	if *tier == "thorough" {
+		opt.OneShotMs = 240000
 	}
 	mk, ok := drive.Plans[prop]
 	if !ok {
